@@ -106,6 +106,22 @@ def str_class(s):
     return "multi"
 
 
+def _hostile(s):
+    return s is not None and not all(ch in "aZx" for ch in s)
+
+
+def tag_of(label, issuer):
+    """which of the two strings can be responsible (keeps keys few: one per hostile symbol, one for 'both')"""
+    lh, ih = _hostile(label), _hostile(issuer)
+    if lh and ih:
+        return "label+issuer"
+    if lh:
+        return "label:" + str_class(label)
+    if ih:
+        return "issuer:" + str_class(issuer)
+    return "plain"
+
+
 def fields_of(o):
     return {"key": o.key, "alg": o.alg, "digits": o.digits, "period": o.period, "label": o.label, "issuer": o.issuer}
 
@@ -168,7 +184,7 @@ def eval_roundtrip(case):
     fmt, facname = case["format"], case["factory"]
     comp = "uri" if fmt.startswith("uri") else fmt
     lab_cls, iss_cls = str_class(case["label"]), str_class(case["issuer"])
-    tag = f"label:{lab_cls}:issuer:{iss_cls}"
+    tag = tag_of(case["label"], case["issuer"])
     try:
         F, orig, want, ser, load = build(case)
     except Exception as e:  # noqa: BLE001
@@ -231,7 +247,7 @@ def eval_roundtrip(case):
         try:
             p = R.parse_keyuri(src)
         except R.UriError as e:
-            cls = {"label": ":label:" + lab_cls, "issuer": ":issuer:" + iss_cls}.get(e.field, "")
+            cls = ":" + tag if e.field else ""
             out.append((f"C15|uri|independent_reader:{e.code}{cls}", f"{src!r} is not a readable KeyURI: {e}"))
         except Exception as e:  # noqa: BLE001
             out.append((f"C15|uri|independent_reader:{type(e).__name__}", f"{src!r}: {e!r}"))
